@@ -146,7 +146,9 @@ class ImgArr:
 
     def transpose(self, eng, args):
         used(eng, "ndarray.transpose(perm): out.shape[k] = in.shape[perm[k]], out[j] = in[i] with i[perm[k]] = j[k]")
-        if len(args) == 1 and not isinstance(args[0], int):
+        if len(args) == 0 or (len(args) == 1 and args[0] is None):
+            perm = list(range(self.ndim))[::-1]  # a.transpose(): the axes reversed
+        elif len(args) == 1 and not isinstance(args[0], int):
             perm = args[0]
         else:
             perm = args
@@ -175,6 +177,9 @@ class ImgArr:
 
     def __pyvc_getitem__(self, eng, idx):
         return basic_index(eng, self, idx)
+
+    def __pyvc_isinstance__(self, cls):
+        return cls is np.ndarray
 
     # ---- arithmetic
     def __pyvc_binop__(self, eng, op, a, b):
